@@ -53,14 +53,24 @@ type SpecFn struct {
 }
 type SpecParam struct{ Name, Type string }
 
+type TableSpec struct {
+	Pkg     string
+	Name    string
+	Props   []string
+	Rows    [][2]string // key, function description (as printed by the extractor)
+	Exact   bool
+	Where   string
+}
+
 type Specs struct {
+	Tables  []*TableSpec
 	Funcs   map[string]*FuncSpec
 	SpecFns map[string]*SpecFn
 	Errors  []string
 	Scan    []string // mechanical scan hits for assume/trusted
 }
 
-var clauseRe = regexp.MustCompile(`^(requires|ensures|invariant|decreases|nopanic|assigns|pure|loop|func|spec|order-independent|trusted)\b(\[[A-Z0-9, ]*\])?\s*(.*)$`)
+var clauseRe = regexp.MustCompile(`^(requires|ensures|invariant|decreases|nopanic|assigns|pure|loop|func|spec|order-independent|trusted|table|row|exact)\b(\[[A-Z0-9, ]*\])?\s*(.*)$`)
 
 func parseProps(s string) []string {
 	s = strings.Trim(s, "[]")
@@ -102,6 +112,7 @@ func (sp *Specs) loadFile(path string) {
 	sc.Buffer(make([]byte, 1<<20), 1<<20)
 	pkg := ""
 	var cur *FuncSpec
+	var curTable *TableSpec
 	var curLoop *LoopSpec
 	var last *Clause
 	ln := 0
@@ -148,6 +159,36 @@ func (sp *Specs) loadFile(path string) {
 			}
 			sp.Funcs[key] = cur
 			curLoop = nil
+		case "table":
+			if i := strings.Index(rest, "["); i >= 0 && len(props) == 0 {
+				props = parseProps(rest[i:])
+				rest = rest[:i]
+			}
+			curTable = &TableSpec{Pkg: pkg, Name: strings.Fields(rest + " ?")[0], Props: props, Where: where}
+			sp.Tables = append(sp.Tables, curTable)
+			cur = nil
+		case "row":
+			if curTable == nil {
+				sp.Errors = append(sp.Errors, where+": row outside table")
+				continue
+			}
+			// row "key" funcdesc
+			q := strings.Index(rest, "\"")
+			q2 := -1
+			if q >= 0 {
+				if j := strings.Index(rest[q+1:], "\""); j >= 0 {
+					q2 = q + 1 + j
+				}
+			}
+			if q < 0 || q2 <= q {
+				sp.Errors = append(sp.Errors, where+": bad row: "+rest)
+				continue
+			}
+			curTable.Rows = append(curTable.Rows, [2]string{rest[q+1 : q2], strings.TrimSpace(rest[q2+1:])})
+		case "exact":
+			if curTable != nil {
+				curTable.Exact = true
+			}
 		case "spec":
 			sf, err := parseSpecFn(rest)
 			if err != nil {
@@ -760,6 +801,7 @@ func (e *specEnv) eval(x *SX) (Val, types.Type, error) {
 			r := Val{T: t, S: pl.Sort, GT: pl.GoType}
 			if ti := c.E.tables[pl.Name]; ti != nil {
 				r.Table = ti
+				c.tableDomainFacts(ti, t, e.st)
 			}
 			return r, pl.GoType, nil
 		}
@@ -1073,6 +1115,15 @@ func (e *specEnv) pathMatch(p, pat Val) string {
 	star := c.strLit("*")
 	c.declareFun("splitcount", []Sort{SStr, SStr}, SInt)
 	c.declareFun("splitpart", []Sort{SStr, SStr, SInt}, SStr)
+	if pl, ok := c.litContent(p.T); ok {
+		c.literalSplitFacts(p.T, pl)
+	}
+	c.literalSplitFacts("str_empty", "")
+	for _, ls := range append([]string{}, c.litSeq...) {
+		if len(ls) < 80 {
+			c.literalSplitFacts(c.lits[ls], ls)
+		}
+	}
 	if lit, ok := c.litContent(pat.T); ok {
 		parts := strings.Split(lit, ".")
 		c.literalSplitFacts(pat.T, lit)
@@ -1155,7 +1206,7 @@ func (e *specEnv) evalCall(x *SX) (Val, types.Type, error) {
 		}
 		ks, vs, _, ok := e.mapSorts(mt)
 		if !ok {
-			return Val{}, nil, fmt.Errorf("has: not a map")
+			return Val{}, nil, fmt.Errorf("has: not a map (sort %s, type %v, term %s)", m.S, mt, m.T)
 		}
 		if k.S != ks && ks == SAny && k.S == SStr {
 			k = Val{T: "(a_str " + k.T + ")", S: SAny}
